@@ -425,3 +425,55 @@ func IsNilValue(n any) bool {
 	}
 	return false
 }
+
+// LeftmostExprToken: the first source token of an expression node (false for plugin node types).
+func LeftmostExprToken(e ast.Expression) (token.Token, bool) {
+	for depth := 0; depth < 10000; depth++ {
+		switch x := e.(type) {
+		case *ast.Identifier:
+			return x.Token, true
+		case *ast.IntegerLiteral:
+			return x.Token, true
+		case *ast.FloatLiteral:
+			return x.Token, true
+		case *ast.StringLiteral:
+			return x.Token, true
+		case *ast.MultiStringLiteral:
+			return x.Token, true
+		case *ast.BooleanLiteral:
+			return x.Token, true
+		case *ast.NullLiteral:
+			return x.Token, true
+		case *ast.LetExpression:
+			return x.Token, true
+		case *ast.UnaryExpression:
+			return x.Token, true
+		case *ast.GroupedExpression:
+			return x.Token, true
+		case *ast.FunctionExpression:
+			return x.Token, true
+		case *ast.ArrayLiteral:
+			return x.Token, true
+		case *ast.ObjectLiteral:
+			return x.Token, true
+		case *ast.BinaryExpression:
+			e = x.Left
+		case *ast.PostfixExpression:
+			e = x.Left
+		case *ast.CallExpression:
+			e = x.Function
+		case *ast.MemberExpression:
+			e = x.Object
+		case *ast.AssignmentExpression:
+			e = x.Left
+		case *ast.CompoundAssignmentExpression:
+			e = x.Left
+		default:
+			return token.Token{}, false
+		}
+		if e == nil {
+			return token.Token{}, false
+		}
+	}
+	return token.Token{}, false
+}
